@@ -75,11 +75,49 @@ def gen_config(rng, mode=None):
                   options=options), mode
 
 
+def scripted_prefix(rng, cfg):
+    """Multi-step situations that a uniform event stream rarely builds: several pull requests driven to the merge
+    one after the other or in one batch, entering the cascade at the same or at different branches."""
+    kind = rng.choice(['same-base', 'batch', 'second-entry-lower', 'none', 'none'])
+    if kind == 'none' or len(cfg.dests) < 1:
+        return [], 0
+    devs = [d for d in cfg.dests if not d.startswith('hotfix/')]
+    if not devs:
+        return [], 0
+    evs = []
+
+    def open_(i, dst):
+        evs.append({'op': 'open', 'pr': i, 'dst': dst,
+                    'src': '%s/TEST-%04d' % (rng.choice(['feature', 'bugfix', 'improvement']), i)})
+    if kind == 'same-base':
+        # two pull requests branched from the same commit, merged one after the other (the second one is not rebased)
+        d = rng.choice(devs)
+        open_(1, d)
+        open_(2, d)
+        evs += [{'op': 'progress', 'pr': 1}] * 3 + [{'op': 'progress', 'pr': 2}] * 3
+    elif kind == 'batch':
+        # several pull requests queued, builds reported, one evaluation merges the batch
+        d1, d2 = rng.choice(devs), rng.choice(devs)
+        open_(1, d1)
+        open_(2, d2)
+        evs += [{'op': 'progress', 'pr': 1}, {'op': 'progress', 'pr': 2}, {'op': 'progress', 'pr': 1},
+                {'op': 'progress', 'pr': 2}, {'op': 'build', 'pr': 1, 'what': 'queue', 'state': 'SUCCESSFUL'},
+                {'op': 'progress', 'pr': 2}]
+    else:
+        # the second pull request enters the cascade below the first one
+        open_(1, devs[-1])
+        open_(2, devs[0])
+        evs += [{'op': 'progress', 'pr': 1}, {'op': 'progress', 'pr': 1}, {'op': 'progress', 'pr': 2},
+                {'op': 'progress', 'pr': 2}, {'op': 'build', 'pr': 1, 'what': 'queue', 'state': 'SUCCESSFUL'},
+                {'op': 'progress', 'pr': 2}]
+    return evs, 2
+
+
 def gen_history(rng, cfg, length=None, admin_jobs=True):
     """A list of abstract events; concrete branch/sha choices are resolved at execution."""
     n = length or rng.randint(8, 18)
-    evs = []
-    nprs = 0
+    evs, nprs = scripted_prefix(rng, cfg)
+    n = max(4, n - len(evs) // 2)
     for _ in range(n):
         r = rng.random()
         if nprs == 0 or (nprs < 3 and r < 0.15):
@@ -180,6 +218,8 @@ class Run:
         if op == 'progress':
             # the next step that moves this pull request forward: report green builds, then evaluate
             names = [pr['src']] + self._targets_w(pr) + [n for n in refs if n.startswith('q/w/%d/' % pr['id'])]
+            if self.cfg.author_approval:
+                w.approve(pr['id'], CONTRIB)
             for n in names:
                 if n in refs:
                     w.set_build(refs[n], 'SUCCESSFUL')
